@@ -180,28 +180,28 @@ Ltac resp :=
     | apply resp_read_words
     | apply resp_bind; [|intro] | apply resp_need; intro | apply resp_if ].
 
-Lemma resp_parse_cut : forall e t, rd_resp (parse_cut e t).
+Lemma resp_parse_cut : forall e xl t, rd_resp (parse_cut e xl t).
 Proof. intros. unfold parse_cut. resp. Qed.
 
 Lemma resp_parse_textchat : forall t, rd_resp (parse_textchat t).
 Proof. intros. unfold parse_textchat. resp. Qed.
 
-Lemma resp_parse_body : forall e t, rd_resp (parse_body e t).
+Lemma resp_parse_body : forall e xl t, rd_resp (parse_body e xl t).
 Proof.
   intros. unfold parse_body.
   repeat (apply resp_if; [resp; try apply resp_parse_cut; try apply resp_parse_textchat|]).
   apply resp_fail.
 Qed.
 
-Lemma resp_parse_normal : forall e, rd_resp (parse_normal e).
+Lemma resp_parse_normal : forall e xl, rd_resp (parse_normal e xl).
 Proof.
   intros. unfold parse_normal.
   apply resp_bind; [apply resp_read_exact|]. intro t1. apply resp_need. intro t.
   apply resp_parse_body.
 Qed.
 
-Lemma resp_parse_for : forall st e, rd_resp (parse_for st e).
-Proof. intros [] e; cbn [parse_for]; try apply resp_parse_normal; resp. Qed.
+Lemma resp_parse_for : forall st e xl, rd_resp (parse_for st e xl).
+Proof. intros [] e xl; cbn [parse_for]; try apply resp_parse_normal; resp. Qed.
 
 (* the main select(): readability is a property of the stream, and waiting changes nothing *)
 Lemma wake_fl_spec : forall (fl : list fitem) (kb : list Z) (eof : bool),
